@@ -6,7 +6,9 @@
 // and an optional finally; every block emits t(id).  Fault ENUMERATION per nest: every leaf in
 // turn is the throw site x every thrown kind (script int / string / script-class object /
 // runtime_error value, failed dispatch, C++ runtime_error / out_of_range / logic_error / user
-// class / int thrown by a registered function) x {no exception_specification, <int, string>}.
+// class / int thrown by a registered function, errors and throws inside a nested script-level
+// eval("...") / eval(parse("...")), a throwing guard, a call every guard rejects)
+// x {no exception_specification, <int, string, bool, double>}.
 // Oracle: a reference interpreter of try/catch/finally over the same nest (DESIGN.md appendix B)
 // predicts the exact t() trace and how the exception leaves eval.
 #include "simworld.hpp"
@@ -20,14 +22,16 @@ namespace {
     int code;
   };
 
-  constexpr int N_KINDS = 13;
+  constexpr int N_KINDS = 20;
   const char *kind_names[N_KINDS] = {"script_int", "script_string", "script_object", "script_runtime_error", "failed_dispatch",
                                      "cpp_runtime_error", "cpp_out_of_range", "cpp_logic_error", "cpp_user_class", "cpp_int",
-                                     "script_bool", "script_double", "script_bool_expression"};
+                                     "script_bool", "script_double", "script_bool_expression",
+                                     "nested_eval_failed_dispatch", "nested_eval_parse_error", "nested_eval_script_int", "guard_throws", "all_guards_reject", "parsed_tree_failed_dispatch", "parsed_tree_script_int"};
   // dynamic type of the thrown value, "" = not representable in script (bypasses catch clauses)
-  const char *kind_type[N_KINDS] = {"int", "string", "MyExc", "runtime_error", "eval_error", "runtime_error", "out_of_range", "logic_error", "", "", "bool", "double", "bool"};
-  const char *catch_types[] = {"", "int", "string", "MyExc", "OtherExc", "runtime_error", "out_of_range", "logic_error", "exception", "eval_error", "bool", "double"};
-  constexpr int N_CATCH_TYPES = 12;
+  const char *kind_type[N_KINDS] = {"int", "string", "MyExc", "runtime_error", "eval_error", "runtime_error", "out_of_range", "logic_error", "", "", "bool", "double", "bool",
+                                    "eval_error", "eval_error", "int", "int", "eval_error", "eval_error", "int"};
+  const char *catch_types[] = {"", "int", "string", "MyExc", "OtherExc", "runtime_error", "out_of_range", "logic_error", "exception", "eval_error", "bool", "double", "-"};
+  constexpr int N_CATCH_TYPES = 13; // "" = catch (e), "-" = catch without a variable
 
   bool derives(const std::string &dyn, const std::string &base) {
     if (dyn == base) return true;
@@ -85,7 +89,7 @@ namespace {
             t2["k"] = J("throw2");
             t2["id"] = J(next_id++);
             cb.push(t2);
-          } else if (rng.chance(180)) {
+          } else if (c.at("type").str() != "-" && rng.chance(180)) {
             // the clause throws the object it caught again
             J rt = J::object();
             rt["k"] = J("rethrow");
@@ -113,7 +117,7 @@ namespace {
       }
       if (k < 8) {
         j["k"] = J("call");
-        j["frame"] = J(int(rng.below(8)));
+        j["frame"] = J(int(rng.below(10)));
         j["body"] = body(d - 1, false);
         return j;
       }
@@ -140,6 +144,13 @@ namespace {
       case 10: return "throw(true);";
       case 11: return "throw(2.5);";
       case 12: return "throw(1 < 2);";
+      case 13: return "eval(\"undefined_function_zzz()\");";
+      case 14: return "eval(\"1 +* ;\");";
+      case 15: return "eval(\"throw(5)\");";
+      case 16: return "guard_throws_fn(1);";
+      case 17: return "all_guards_reject_fn(1);";
+      case 18: return "eval(parse(\"undefined_function_zzz()\"));";
+      case 19: return "eval(parse(\"throw(6)\"));";
       default: return "cb(" + std::to_string(kind) + ");";
       }
     }
@@ -200,7 +211,19 @@ namespace {
           const std::string o = n("o");
           return "fun() { var " + o + " = Dynamic_Object(); " + o + ".f = fun() { " + b + "}; " + o + ".f(); }();";
         }
-        default: return "call_cpp0(fun() { " + b + "});";
+        case 7: return "call_cpp0(fun() { " + b + "});";
+        case 8: {
+          // two guarded overloads: the first guard rejects (guard_error inside dispatch), the second accepts
+          const std::string f = n("g");
+          prelude += "def " + f + "(x) : x == 0 { t(9000); }\ndef " + f + "(x) : x == 1 { " + b + "}\n";
+          return f + "(1);";
+        }
+        default: {
+          // overloads of other arities and of a non-matching parameter type come first
+          const std::string f = n("a");
+          prelude += "def " + f + "() { t(9001); }\ndef " + f + "(string s) { t(9002); }\ndef " + f + "(a, b) { t(9003); }\ndef " + f + "(int a) { " + b + "}\n";
+          return f + "(1);";
+        }
         }
       }
       // try
@@ -208,7 +231,11 @@ namespace {
       const J &cs = s.at("catches");
       for (size_t i = 0; i < cs.size(); ++i) {
         const std::string ty = cs[i].at("type").str();
-        out += " catch (" + (ty.empty() ? std::string("e") : ty + " e") + ") { " + body(cs[i].at("body")) + "}";
+        if (ty == "-") {
+          out += " catch { " + body(cs[i].at("body")) + "}";
+        } else {
+          out += " catch (" + (ty.empty() ? std::string("e") : ty + " e") + ") { " + body(cs[i].at("body")) + "}";
+        }
       }
       if (s.has("finally")) {
         out += " finally { " + body(s.at("finally")) + "}";
@@ -236,11 +263,14 @@ namespace {
       e.type = kind_type[kind];
       static const char *leave[N_KINDS] = {"Boxed_Value|i:1", "Boxed_Value|s:s", "Boxed_Value|obj:MyExc{}", "Boxed_Value|exc:St13runtime_error:x",
                                            "eval_error|Can not find object: undefined_function_zzz", "St13runtime_error|injected", "St12out_of_range|injected",
-                                           "St11logic_error|injected", "user_class|", "int|9", "Boxed_Value|true", "Boxed_Value|d:2.5", "Boxed_Value|true"};
+                                           "St11logic_error|injected", "user_class|", "int|9", "Boxed_Value|true", "Boxed_Value|d:2.5", "Boxed_Value|true",
+                                           "Boxed_Value|eval_error:Can not find object: undefined_function_zzz", "Boxed_Value|eval_error:Incomplete '+' expression",
+                                           "Boxed_Value|i:5", "Boxed_Value|i:3", "eval_error|Guard evaluation failed with function 'all_guards_reject_fn'",
+                                           "Boxed_Value|eval_error:Can not find object: undefined_function_zzz", "Boxed_Value|i:6"};
       e.leave = leave[kind];
       // exception_specification<int, std::string, bool, double>: a script value of exactly one of these types
       // leaves eval as that C++ type
-      static const char *spec[N_KINDS] = {"int|1", "std::string|s", nullptr, nullptr, nullptr, nullptr, nullptr, nullptr, nullptr, nullptr, "bool|1", "double|2.5", "bool|1"};
+      static const char *spec[N_KINDS] = {"int|1", "std::string|s", nullptr, nullptr, nullptr, nullptr, nullptr, nullptr, nullptr, nullptr, "bool|1", "double|2.5", "bool|1", nullptr, nullptr, "int|5", "int|3", nullptr, nullptr, "int|6"};
       e.leave_spec = spec[kind] ? spec[kind] : e.leave;
       return e;
     }
@@ -299,9 +329,9 @@ namespace {
           bool matched = false;
           for (size_t i = 0; i < cs.size(); ++i) {
             const std::string ty = cs[i].at("type").str();
-            if (ty.empty() || derives(r.type, ty)) {
+            if (ty.empty() || ty == "-" || derives(r.type, ty)) {
               matched = true;
-              probes[ty.empty() ? "probe_caught_untyped" : "probe_caught_typed"] += 1;
+              probes[ty == "-" ? "probe_caught_without_variable" : ty.empty() ? "probe_caught_untyped" : "probe_caught_typed"] += 1;
               if (i > 0) {
                 probes["probe_earlier_clause_skipped"] += 1;
               }
@@ -364,7 +394,9 @@ namespace {
 
   One run_one(const J &nest, int site, int kind, bool spec) {
     One res;
-    Render rn{site, kind, "class MyExc { def MyExc() {} };\nclass OtherExc { def OtherExc() {} };\n"};
+    Render rn{site, kind, "class MyExc { def MyExc() {} };\nclass OtherExc { def OtherExc() {} };\n"
+                         "def guard_thrower() { throw(3); return true }\ndef guard_throws_fn(x) : guard_thrower() { t(9004); }\n"
+                         "def all_guards_reject_fn(x) : x == 0 { t(9005); }\n"};
     const std::string main_body = rn.body(nest);
     const std::string script = rn.prelude + main_body;
     Ref ref{site, kind};
@@ -527,7 +559,7 @@ namespace {
       for (size_t i = 0; ok && i < leaves.size(); ++i) {
         for (int kind = 0; ok && kind < N_KINDS; ++kind) {
           for (int spec = 0; ok && spec < 2; ++spec) {
-            if (spec == 1 && kind > 2 && kind < 10) {
+            if (spec == 1 && ((kind > 2 && kind < 10) || kind == 13 || kind == 14 || kind == 17 || kind == 18)) {
               continue; // the specification only concerns script-thrown values
             }
             ok = one(leaves[i], kind, spec != 0);
